@@ -178,3 +178,5 @@ func TestHive2(t *testing.T) {
 		},
 	}, run.N(12, 120))
 }
+
+func p2pPeer(a boson.Address, m aurora.Model) p2p.Peer { return p2p.Peer{Address: a, Mode: m} }
